@@ -101,7 +101,7 @@ func gen(g *kernel.Rng, seed uint64, tier string) *kernel.Plan {
 		for k := g.Range(1, 3); k > 0; k-- {
 			noise(0)
 			p.Ops = append(p.Ops, kernel.Op{K: "createStream", T: 0, N: []int64{tq, 0, 0}})
-			p.Ops = append(p.Ops, kernel.Op{K: "expect", T: 1, S: []string{"*rtmp.CallPacket"}})
+			p.Ops = append(p.Ops, kernel.Op{K: "expectcmd", T: 1})
 			noise(1)
 			p.Ops = append(p.Ops, kernel.Op{K: "createStreamRes", T: 1, N: []int64{tq, int64(g.Range(0, 20)), 0, 0}})
 			p.Ops = append(p.Ops, kernel.Op{K: "expect", T: 0, S: []string{"*rtmp.CreateStreamResPacket"}})
@@ -112,7 +112,7 @@ func gen(g *kernel.Rng, seed uint64, tier string) *kernel.Plan {
 			p.Ops = append(p.Ops, kernel.Op{K: "expect", T: 1, S: []string{"*rtmp.PublishPacket"}})
 		} else {
 			p.Ops = append(p.Ops, kernel.Op{K: "play", T: 0, N: []int64{tq, int64(g.U32()), int64(g.OneOf(1, 8, 40))}})
-			p.Ops = append(p.Ops, kernel.Op{K: "expect", T: 1, S: []string{"*rtmp.CallPacket"}})
+			p.Ops = append(p.Ops, kernel.Op{K: "expectcmd", T: 1})
 		}
 	case 0:
 		p.Variant = "stream"
@@ -256,6 +256,35 @@ func run(p *kernel.Plan) (res *kernel.Result) {
 			}
 			return true
 		case "wait", "waitmsg":
+			return true
+		case "expectcmd":
+			// wait for the next AMF0 command message, whatever packet type it decodes to
+			rr := recvRec{mode: "waitcmd", want: "[20]", step0: s.S.Now()}
+			m, err := e.Proto.ExpectMessage(rtmp.MessageTypeAMF0Command)
+			var pkt rtmp.Packet
+			if err == nil {
+				pkt, err = e.Proto.DecodeMessage(m)
+			}
+			rr.err = err
+			rr.step = s.S.Now()
+			if m != nil {
+				rr.msgType, rr.payload = byte(m.MessageType), m.Payload
+			}
+			if pkt != nil && err == nil && !reflect.ValueOf(pkt).IsNil() {
+				rr.pktType = typeName(pkt)
+				rr.fields = fieldsOf(pkt)
+				if b, err := pkt.MarshalBinary(); err == nil {
+					rr.remEq = m != nil && bytes.Equal(b, m.Payload)
+					rr.sizeOK = pkt.Size() == len(b)
+				}
+			}
+			sd.recvs = append(sd.recvs, rr)
+			sd.recvCnt++
+			t.Evf("expectcmd", "%s got=%s err=%v", e.Name, rr.pktType, err)
+			if err != nil {
+				e.Crashed = true
+				e.Conn.Close()
+			}
 			return true
 		case "expect":
 			if len(op.S) < 1 {
@@ -579,8 +608,12 @@ func evalDir(res *kernel.Result, p *kernel.Plan, from, to *side, name string) bo
 		switch sr.kind {
 		case "*rtmp.ConnectAppPacket", "*rtmp.PublishPacket", "*rtmp.SetChunkSize", "*rtmp.WindowAcknowledgementSize", "*rtmp.SetPeerBandwidth", "*rtmp.UserControl":
 			return exp{[]string{sr.kind}, true}
-		case "*rtmp.CreateStreamPacket", "*rtmp.PlayPacket", "*rtmp.CallPacket":
-			// no dedicated dispatch case for createStream/play: generic call (assumption recorded in evidence)
+		case "*rtmp.CreateStreamPacket", "*rtmp.PlayPacket":
+			// the library has no dedicated dispatch case for createStream/play and
+			// hands them over as the generic call packet; the dedicated type would
+			// be "the packet type the protocol defines" just as well
+			return exp{[]string{"*rtmp.CallPacket", sr.kind}, true}
+		case "*rtmp.CallPacket":
 			return exp{[]string{"*rtmp.CallPacket"}, true}
 		}
 		// a _result
@@ -678,7 +711,7 @@ func evalDir(res *kernel.Result, p *kernel.Plan, from, to *side, name string) bo
 				return false
 			}
 			pos++
-		case "wait", "waitmsg":
+		case "wait", "waitmsg", "waitcmd":
 			// the first definite match at or after pos
 			first := -1
 			for j := pos; j < len(sent); j++ {
@@ -687,6 +720,16 @@ func evalDir(res *kernel.Result, p *kernel.Plan, from, to *side, name string) bo
 				if rr.mode == "wait" {
 					ex := expect(sr, rr.step0, rr.step, false)
 					hit = ex.must && ex.types[0] == rr.want
+					if ex.must && len(ex.types) > 1 {
+						// createStream/play may arrive as the generic call packet or
+						// as their dedicated type: a wait for either type may take
+						// this packet or skip it; what it returned decides
+						maybe := false
+						for _, tp := range ex.types {
+							maybe = maybe || tp == rr.want
+						}
+						hit = maybe && rr.err == nil && bytes.Equal(sr.bytes, rr.payload)
+					}
 					if !hit && sr.isResp {
 						// a response the typed wait skips is decoded, i.e. consumed
 						if ex2 := expect(sr, rr.step0, rr.step, true); !ex2.must {
@@ -734,7 +777,13 @@ func evalDir(res *kernel.Result, p *kernel.Plan, from, to *side, name string) bo
 				res.Fail("C03/wait-not-first", "%s: %s for %s returned sent packet %d, but the first arriving one of that type is packet %d (%s)", name, rr.mode, rr.want, which, first, sr.kind)
 				return false
 			}
-			if rr.mode == "wait" {
+			if rr.mode == "waitcmd" {
+				// the message was awaited by type and then decoded like a plain read
+				if !judge(first, sr, rr, expect(sr, rr.step0, rr.step, true)) {
+					return false
+				}
+				res.Stat("command_message_waits", 1)
+			} else if rr.mode == "wait" {
 				if sr.isResp {
 					expect(sr, rr.step0, rr.step, true) // the awaited response is consumed
 				}
